@@ -154,12 +154,30 @@ class World:
                 break
         raise Undecided("entries argument is %r" % (v,))
 
+    def precond(self, st, m, items, op):
+        """Precondition of every IndexMap operation that takes the entries slice: the hash and equality callbacks read
+        `entries[indexes.rep].key` for the buckets they visit (all of them on a re-hash), so every representative stored in
+        the table must be a position of the slice passed, holding the bucket's key.  (This is what discharges the bounds
+        checks inside `make_hasher` / `equivalent_key`, and what makes the probe compare the right keys.)"""
+        for k, pos in m.m:
+            if not pos:
+                continue
+            rep = pos[0]
+            if rep >= len(items):
+                raise Undecided("IndexMap::%s is called with %d entries while the index still holds the representative position %d (key %s): "
+                                "the hash / equality callback would read entries[%d] out of bounds" % (op, len(items), rep, k, rep))
+            have = self.entry_kv(st, items[rep])[0]
+            if have != k:
+                raise Undecided("IndexMap::%s is called while the representative position %d of key %s holds an entry with key %s in the slice passed: "
+                                "the probe would hash / compare the wrong key" % (op, rep, k, have))
+
     def install(self):
         sh, P = self.sh, self.P
         W = self
 
         def im_get(it, st, c, a):
             _, m = W.idx_of(st, a[0])
+            W.precond(st, m, W.slice_items(st, a[1]), "get")
             pos = m.get(W.key_of(st, a[2]))
             rt = shape.ret_ty(it, c)
             if not pos:
@@ -182,6 +200,7 @@ class World:
             i = pos_arg(a[2])
             if i >= len(items):
                 raise Undecided("IndexMap::insert(%d) beyond the %d entries" % (i, len(items)))
+            W.precond(st, m, items, "insert")
             k = W.entry_kv(st, items[i])[0]
             old = m.get(k)
             st.heap[iid] = m.with_(k, sorted(set(old) | {i}))
@@ -195,6 +214,7 @@ class World:
             i = pos_arg(a[2])
             if i >= len(items):
                 raise Undecided("IndexMap::remove(%d) beyond the %d entries" % (i, len(items)))
+            W.precond(st, m, items, "remove")
             k = W.entry_kv(st, items[i])[0]
             st.heap[iid] = m.with_(k, [p for p in m.get(k) if p != i])
             rt = shape.ret_ty(it, c)
